@@ -443,6 +443,33 @@ func registerIntrinsics(P *Program) {
 		return nil
 	}
 	in["runtime.KeepAlive"] = func(fr *frame, args []Value) Value { return nil }
+	// math/bits: bit length / leading zeros as an ite chain over the bit positions (the library
+	// versions index 256-entry tables with a symbolic byte)
+	bitLen := func(m *Machine, x *Term, w int) *Term {
+		tb := m.tb
+		if x.Sort.W > w {
+			x = tb.Extract(x, w-1, 0)
+		}
+		res := tb.Const(64, 0)
+		for i := 0; i < w; i++ { // highest set bit wins: build from the lowest
+			bit := tb.Extract(x, i, i)
+			res = tb.Ite(tb.Eq(bit, tb.Const(1, 1)), tb.Const(64, uint64(i+1)), res)
+		}
+		return res
+	}
+	for _, e := range []struct {
+		name string
+		w    int
+	}{{"8", 8}, {"16", 16}, {"32", 32}, {"64", 64}, {"", 64}} {
+		w := e.w
+		in["math/bits.Len"+e.name] = func(fr *frame, args []Value) Value {
+			return bitLen(fr.m, args[0].(*Term), w)
+		}
+		in["math/bits.LeadingZeros"+e.name] = func(fr *frame, args []Value) Value {
+			m := fr.m
+			return m.tb.Bin(OpSub, m.tb.Const(64, uint64(w)), bitLen(m, args[0].(*Term), w))
+		}
+	}
 	// call-stack introspection (diagnostics only): unknown caller
 	in["runtime.Caller"] = func(fr *frame, args []Value) Value {
 		tb := fr.m.tb
